@@ -42,6 +42,7 @@ class HistoryRun(object):
     self.findings = []        # (property, signature, detail, replay)
     self.bundles = []         # dicts: actions, kinds, result
     self.log = []             # every bundle applied to self.doc (for replay)
+    self.log_faults = {}      # log index -> fault site number injected while applying that entry
     self.stats = {"bundles": 0, "ok": 0, "rejected": 0, "errors": {}, "stored_actions": 0,
                   "undo_checks": 0, "nontrivial": 0}
     # feed InitNewDoc's stored actions to the replica
@@ -68,7 +69,8 @@ class HistoryRun(object):
     self.init_stored = r.stored
 
   def replay_obj(self, upto=None):
-    return {"history": copy.deepcopy(self.log if upto is None else self.log[:upto])}
+    return {"history": copy.deepcopy(self.log if upto is None else self.log[:upto]),
+            "faults": {str(k): v for k, v in self.log_faults.items()}}
 
   def apply(self, uas, kinds=()):
     """Apply one bundle to the real engine and run the oracles."""
@@ -122,6 +124,8 @@ class HistoryRun(object):
         res = self._raw(uas)
       finally:
         ed.REC.fault = None
+      if fault.fired is not None:
+        self.log_faults[len(self.log) - 1] = k
       if fault.fired is None or res.ok:
         # the real application (or the fault was swallowed, e.g. inside a formula evaluation)
         self.stats["bundles"] += 1
@@ -373,6 +377,17 @@ def classify_failed(rec, fault, doc):
       and pre[-1][1][0] in ("ModifyColumn",):
     return ("exception from rebuild_usercode inside the %s doc action: the column's data is lost "
             "(the restored schema gets a fresh column object)" % pre[-1][1][0])
+  in_rb = False
+  for st in steps:
+    if st[0] == "rollback":
+      in_rb = True
+    elif st[0] == "rollback-done":
+      in_rb = False
+    elif in_rb and st[0] == "doc" and st[1][0] == "AddColumn" and st[1][3].get("isFormula"):
+      return ("rollback of RemoveColumn of a formula column re-creates it with default values until the next "
+              "calculation (its values were only in the calc summary, which the rollback does not flush)")
+    elif in_rb and st[0] == "doc" and st[1][0] == "AddTable" and any(c.get("isFormula") for c in st[1][2]):
+      return ("rollback of RemoveTable re-creates the table's formula columns; values dirty until the next calculation")
   if any(st[1][0] == "ReplaceTableData" and st[3] == "ok" for st in pre):
     return ("rollback of ReplaceTableData leaves the table's formula columns at their defaults until the "
             "next calculation (its undo action carries data columns only)")
